@@ -864,7 +864,9 @@ def rule_PL7(ctx, tier):
             rr.fail("no-persist:%s" % shortfn(mut), "`%s` never calls `%s`" % (shortfn(mut), shortfn(part)), where=b.span)
             continue
         # on the known-tower path (Some / contains_key true / ...), the partner is always reached
-        edges = switch_succ_with(ctx, b, "variant", "Some", "HashMap") + switch_succ_with(ctx, b, "truth", True, "contains_key")
+        edges = switch_succ_with(ctx, b, "variant", "Some", "HashMap") + switch_succ_with(ctx, b, "truth", True, "contains_key") \
+            + [e for e in switch_succ_with(ctx, b, "truth", False, "is_none") + switch_succ_with(ctx, b, "truth", True, "is_some")
+               if any(f[0] == "truth" and has_call(f[1], "HashMap") for f in ctx.pf.switch_facts(b, e[0]).get(e[1], ()))]
         if mut.endswith("add_update_tower"):
             # both the known and unknown tower paths persist unless rejected with Err
             oks = [bb for bb in b.rpo() for x in b.blocks[bb]["s"] if x["k"] == "assign" and x["d"] == [0] and x["rv"]["k"] == "agg" and x["rv"].get("variant") == "Ok"]
@@ -879,7 +881,7 @@ def rule_PL7(ctx, tier):
             continue
         # ... and only there: a DB write for a tower that is not (any more) in memory acts on links that abandon already
         # cascaded away — e.g. the reference count of delete_pending_appointment then drops a body another tower still needs
-        unknown = [x for x in ps if not (variant_fact(ctx, b, x, "Some", "HashMap") or truth_fact(ctx, b, x, "contains_key") is True or truth_fact(ctx, b, x, "is_some") is True)]
+        unknown = [x for x in ps if not (variant_fact(ctx, b, x, "Some", "HashMap") or truth_fact(ctx, b, x, "contains_key") is True or truth_fact(ctx, b, x, "is_some") is True or truth_fact(ctx, b, x, "is_none") is False)]
         if unknown:
             rr.fail("disk-only:%s" % shortfn(mut), "`%s` calls `%s` on a path where the tower is not known to be in memory: the database is changed for an unknown / abandoned tower while memory is not" % (shortfn(mut), shortfn(part)), where=b.line_of(unknown[0]))
             continue
